@@ -1,10 +1,16 @@
 import TwistedProps.C11.Mono
 import TwistedProps.C11.Fair
+import TwistedProps.C11.ObsOps
+import TwistedProps.C11.StarveOps
+import TwistedProps.C11.Sched
+import TwistedProps.C11.Keep
+import TwistedProps.C11.Progress
+import TwistedProps.C11.Fail
 /-!
 C11 — Cooperator advances only runnable tasks, completes each once, starves none.
 
 Model: `TwistedModel/Reactor/Cooperator.lean` (`step : State → Op → State × Option Err`, whole
-histories `run`).  Lemmas: `TwistedProps/C11/{Basic,Inv,Tick,Ops,Mono,Fair}.lean`.
+histories `run`).  Lemmas: `TwistedProps/C11/{Basic,Inv,Tick,Ops,Mono,Fair,Obs,ObsOps,Starve,StarveOps,Sched,Keep,Progress,Fail}.lean`.
 
 Every `next()` call on a task's iterator is one `workUnit`; it writes a ghost record (`AdvRec`) of
 the status the task had *at that moment*: its `_pauseCount`, the number of outstanding `pause()`
@@ -137,20 +143,108 @@ example : (step (run (init true) demoOps) (.pause 1)).2 = some .taskFailed
     ∧ (step (run (init true) demoOps) (.stop 0)).2 = some .taskDone
     ∧ (step (run (init true) [.new [.value], .cstop]) (.pause 0)).2 = some .schedulerStopped := by decide
 
-/-
-FULL STATEMENT of the whenDone clause (only partly proved):
-  every whenDone / coiterate Deferred fires exactly once — at the moment its task completes (or at
-  once, when the task had completed before) — with the iterator on exhaustion, and otherwise with
-  the failure / stop reason; and no Deferred is ever called back twice (`dblFire = 0`).
-Proved below: a fired Deferred keeps its value for ever (at most one firing is ever observable,
-the model turns a second `callback` into `AlreadyCalledError`), and the task result it is compared
-with never changes (`finished_task_stays_finished`).  MISSING: that all of a task's Deferreds *are*
-fired by `_completeWith` with the result passed to it, and that `dblFire` stays 0 (needs the
-observer/owner invariant: `_deferreds` of an unfinished task = its unfired observers, without
-duplicates).  Those are checked on the real code by the history oracle of harness/corr/C11.py and
-through the tie on every run.
--/
-theorem whenDone_value_never_changes_partial (started : Bool) (ops more : List Op)
+/-! ### every whenDone / coiterate Deferred fires exactly once, with the task's outcome -/
+
+theorem init_obs (started : Bool) : ObsOK (init started) := by
+  refine ⟨rfl, ?_, ?_, ?_, ?_, ?_⟩
+  · intro o t v h; simp [init] at h
+  · intro o t v c h; simp [init] at h
+  · intro t c h; simp [init, State.getTask] at h; exact absurd h (by simp [show (default : Task).completion = none from rfl])
+  · intro t o h; simp [init, State.getTask] at h; exact absurd h (by simp [show (default : Task).deferreds = [] from rfl])
+  · intro t; simp [init, State.getTask]; simp [show (default : Task).deferreds = [] from rfl]
+
+theorem run_obs (s : State) (ops : List Op) (h : Inv s) (hlog : LogOK s) (ho : ObsOK s) (hb : Balanced s ops) :
+    ObsOK (run s ops) := by
+  induction ops generalizing s with
+  | nil => exact ho
+  | cons op ops ih =>
+    have := step_inv s op h hlog hb.1
+    exact ih _ this.1 this.2 (step_obs s op h ho) hb.2
+
+/-- **Every whenDone / coiterate Deferred fires exactly once, with the outcome of its task** — the
+    state reached by *any* balanced history satisfies: no Deferred has ever been called back a second
+    time (`dblFire = 0`: the `for d in self._deferreds: d.callback(…)` loop of `_completeWith` never
+    met a fired Deferred, nor did `whenDone`); each Deferred `o` belongs to an existing task `t`; it is
+    un-fired exactly as long as `t` is unfinished; and once `t` has finished — whether the Deferred was
+    registered before (fired by `_completeWith`) or requested afterwards (fired at once by `whenDone`) —
+    it holds `t`'s stored `_completionResult`, which is the iterator itself after exhaustion
+    (`TaskDone`), `Failure(TaskStopped)` after `stop()`, `Failure(SchedulerStopped)` after
+    `Cooperator.stop`, and the iterator's exception / the yielded Deferred's failure after a failure
+    (`Matches`).  As the statement holds after every prefix of the history, a Deferred fires during
+    the very operation that finishes its task; `whenDone_value_never_changes` adds that the value is
+    then fixed for ever. -/
+theorem whenDone_fires_exactly_once (started : Bool) (ops : List Op) (hb : Balanced (init started) ops) :
+    (run (init started) ops).dblFire = 0 ∧
+    ∀ (o t : Nat) (v : Option Result), (run (init started) ops).observers[o]? = some (t, v) →
+      t < (run (init started) ops).tasks.length ∧
+      (((run (init started) ops).getTask t).completion = none → v = none) ∧
+      (∀ c, ((run (init started) ops).getTask t).completion = some c →
+        ∃ r, v = some r ∧ ((run (init started) ops).getTask t).result = some r ∧ Matches c r) := by
+  have hi := run_inv _ ops (init_inv started).1 (init_inv started).2 hb
+  have ho := run_obs _ ops (init_inv started).1 (init_inv started).2 (init_obs started) hb
+  refine ⟨ho.dbl, fun o t v hob => ⟨ho.owner o t v hob, fun hc => (ho.live o t v hob hc).1, fun c hc => ?_⟩⟩
+  obtain ⟨r, hr, hm⟩ := ho.res t c hc
+  exact ⟨r, by rw [ho.fin o t v c hob hc, hr], hr, hm⟩
+
+/-- non-vacuity: in `demoOps` the coiterate Deferred of task 3 fired with the iterator's exception;
+    a history with all five outcomes and a whenDone requested after completion -/
+example : (run (init true) demoOps).observers = [(3, some .iterError)] ∧ (run (init true) demoOps).dblFire = 0 := by
+  decide
+
+def demoObs : List Op :=
+  [.coiter [], .coiter [.raise], .coiter [.deferred 1], .coiter [.value, .value], .new [.value, .value], .whenDone 4,
+   .whenDone 4, .tick 5, .fire 1 false, .stop 3, .whenDone 3, .cstop, .whenDone 0]
+
+example : Balanced (init true) demoObs ∧
+    (run (init true) demoObs).observers =
+      [(0, some .iterator), (1, some .iterError), (2, some (.deferredFailure 1)), (3, some .taskStopped),
+       (4, some .schedulerStopped), (4, some .schedulerStopped), (3, some .taskStopped), (0, some .iterator)] := by
+  decide
+
+/-- "the failure" is a real one: when a task's result (what its Deferreds fire with) is the failure of
+    the yielded Deferred `j`, that Deferred was errbacked (any history, balanced or not) -/
+theorem failed_with_deferred_failure_was_errbacked (started : Bool) (ops : List Op) (t j : Nat)
+    (h : ((run (init started) ops).getTask t).result = some (.deferredFailure j)) :
+    (run (init started) ops).fired.lookup j = some false := by
+  refine run_failok _ ops ?_ t j h
+  intro t' j' h'
+  simp [init, State.getTask] at h'
+  exact absurd h' (by simp [show (default : Task).result = none from rfl])
+
+example : ((run (init true) demoObs).getTask 2).result = some (.deferredFailure 1) := by decide
+
+/-- a Deferred requested after its task finished is fired at once with the stored result -/
+theorem whenDone_after_completion_fires_immediately (s : State) (t : Nat) (c : Completion)
+    (hl : t < s.tasks.length) (hc : (s.getTask t).completion = some c) :
+    (step s (.whenDone t)).1.observers = s.observers ++ [(t, (s.getTask t).result)] := by
+  simp [step, hl, whenDone, hc]
+
+/-- `_completeWith` never raises on an unfinished task of a reachable state (neither `ValueError`
+    from `_removeTask` nor `AlreadyCalledError` from a Deferred), and hands its result to every
+    Deferred registered on the task -/
+theorem completeWith_fires_all_registered (started : Bool) (ops : List Op) (hb : Balanced (init started) ops)
+    (t : Nat) (c : Completion) (r : Result) (hl : t < (run (init started) ops).tasks.length)
+    (hc : ((run (init started) ops).getTask t).completion = none) :
+    (completeWith (run (init started) ops) t c r).2 = none ∧
+    ∀ o ∈ ((run (init started) ops).getTask t).deferreds,
+      (completeWith (run (init started) ops) t c r).1.observers[o]? = some (t, some r) := by
+  have hi := run_inv _ ops (init_inv started).1 (init_inv started).2 hb
+  have ho := run_obs _ ops (init_inv started).1 (init_inv started).2 (init_obs started) hb
+  generalize run (init started) ops = s at *
+  have hin : (s.getTask t).pc = 0 → t ∈ s.cur := fun hp => (hi.1.2 t).1.2 ⟨hl, hp, hc⟩
+  rw [completeWith_eq s t c r hin]
+  have hmo := cwMid_observers s t c r
+  have hun : ∀ o ∈ (s.getTask t).deferreds, (cwMid s t c r).observers[o]? = some (t, none) := by
+    intro o ho'
+    rw [hmo.1]
+    obtain ⟨v, hv⟩ := ho.defs t o ho'
+    rw [hv, (ho.live o t v hv hc).1]
+  have hsp := fireAll_spec _ (cwMid s t c r) t r (ho.nodup t) hun
+  exact ⟨hsp.1, fun o ho' => by rw [hsp.2.2 o, if_pos ho']⟩
+
+/-- **A fired Deferred keeps its value for ever** (with `whenDone_fires_exactly_once`: exactly one
+    firing). -/
+theorem whenDone_value_never_changes (started : Bool) (ops more : List Op)
     (hb : Balanced (init started) (ops ++ more)) (o t : Nat) (r : Result)
     (ho : (run (init started) ops).observers[o]? = some (t, some r)) :
     (run (init started) (ops ++ more)).observers[o]? = some (t, some r) := by
@@ -162,28 +256,149 @@ theorem whenDone_value_never_changes_partial (started : Bool) (ops more : List O
 example : (run (init true) (demoOps.take 9)).observers[0]? = some (3, some .iterError)
     ∧ (run (init true) demoOps).observers[0]? = some (3, some .iterError) := by decide
 
+/-- **No Deferred is ever lost or handed to another task**: a whenDone / coiterate Deferred that
+    exists after a history exists, with the same owner, after any continuation (so an un-fired one
+    is still there to be fired when its task completes — `whenDone_fires_exactly_once` at that
+    point). -/
+theorem whenDone_deferred_never_lost (started : Bool) (ops more : List Op) (o t : Nat) (v : Option Result)
+    (ho : (run (init started) ops).observers[o]? = some (t, v)) :
+    ∃ v', (run (init started) (ops ++ more)).observers[o]? = some (t, v') := by
+  rw [run_append]
+  exact run_keep _ more o t v ho
+
+
 
 /-! ### no runnable task is starved -/
 
-/-
-FULL STATEMENT (only partly proved): for every balanced history over at most N tasks, a task that
-stays runnable (in `_tasks`) is advanced after at most `rank < N²` work units given to other tasks
-(N−1 when no other task leaves the list meanwhile), and a tick is scheduled whenever `_tasks` is
-non-empty and the Cooperator is started.
+/-- `_tasks` is exactly the set of runnable tasks: existing, unfinished, not paused by their caller
+    and not waiting on a Deferred they yielded. -/
+theorem in_tasks_iff_runnable (started : Bool) (ops : List Op) (hb : Balanced (init started) ops) (t : Nat) :
+    t ∈ (run (init started) ops).cur ↔
+      t < (run (init started) ops).tasks.length ∧ ((run (init started) ops).getTask t).completion = none ∧
+      ((run (init started) ops).getTask t).upc = 0 ∧ ((run (init started) ops).getTask t).waitingOn = [] := by
+  have hi := (run_inv _ ops (init_inv started).1 (init_inv started).2 hb).1
+  generalize run (init started) ops = s at *
+  have hm := (hi.2 t).1
+  have hc := (hi.2 t).2
+  constructor
+  · intro hin
+    have hg := hm.1 hin
+    have := hc hg.2.2
+    exact ⟨hg.1, hg.2.2, by have := hg.2.1; omega, hi.cur_not_waiting t hin⟩
+  · intro ⟨hl, hcn, hu, hw⟩
+    exact hm.2 ⟨hl, by have := hc hcn; rw [hu, hw] at this; simpa using this, hcn⟩
 
-Proved: the bound for the list/iterator mechanism itself.  `_tasks` and `_metarator` change only by
-four moves — `_removeTask` (erase), `_addTask` (append), `next(_metarator)` (index + 1) and
-`self._metarator = iter(self._tasks)` (index := 0 once the index passed the end) — and for *every*
-sequence of such moves that leaves `T` in the list and never yields it, the number of work units of
-other tasks is below N² (`rank` decreases strictly with each, never increases; a removal in front of
-`T` can make the index walk skip `T` once — that is the removal-under-iteration quirk — but costs one
-unit of position).  The four `model_…` lemmas identify the moves with the model's primitives.
-MISSING: the lemma that each whole `step` of the model acts on (`cur`, `meta`) as a legal sequence of
-these moves (by inspection `cur` is written only by `removeTask`, `addTask` and `coopStop`), and the
-scheduled-tick invariant.  Both are exercised on the real code by the `starved` and
-`runnable-but-no-tick-scheduled` checks of the history oracle on every run.
+/-- **A tick is scheduled whenever `_tasks` is non-empty**: after any balanced history, a started
+    Cooperator with a runnable task has a delayed call pending; an un-started one has noted that it
+    must schedule on `start()`. -/
+theorem tick_scheduled_when_runnable (started : Bool) (ops : List Op) (hb : Balanced (init started) ops) :
+    ((run (init started) ops).started = true → (run (init started) ops).cur ≠ [] →
+        (run (init started) ops).scheduled = true) ∧
+    ((run (init started) ops).started = false → (run (init started) ops).cur ≠ [] →
+        (run (init started) ops).mustSched = true) := by
+  suffices h : ∀ (s : State) (ops : List Op), Inv s → LogOK s → ObsOK s → SchedOK s → Balanced s ops →
+      SchedOK (run s ops) by
+    have := h _ ops (init_inv started).1 (init_inv started).2 (init_obs started)
+      ⟨fun _ hc => absurd rfl hc, fun _ hc => absurd rfl hc⟩ hb
+    exact ⟨this.run, this.wait⟩
+  intro s ops
+  induction ops generalizing s with
+  | nil => intro _ _ _ hs _; exact hs
+  | cons op ops ih =>
+    intro h hlog ho hs hb
+    have := step_inv s op h hlog hb.1
+    exact ih _ this.1 this.2 (step_obs s op h ho) (step_sched s op h ho hs) hb.2
+
+example : (run (init true) (demoOps.take 7)).cur = [0, 2, 3, 4] ∧ (run (init true) (demoOps.take 7)).scheduled = true := by
+  decide
+
+/-- **The pending tick does work**: after any balanced history that leaves a started Cooperator with
+    a non-empty `_tasks`, the scheduler tick (any budget ≥ 1) calls `next()` on at least one task. -/
+theorem tick_advances_some_task (started : Bool) (ops : List Op) (hb : Balanced (init started) ops) (b : Nat)
+    (hb1 : 0 < b) (hst : (run (init started) ops).started = true) (hc : (run (init started) ops).cur ≠ []) :
+    (run (init started) ops).log.length < (step (run (init started) ops) (.tick b)).1.log.length := by
+  have hi := run_inv _ ops (init_inv started).1 (init_inv started).2 hb
+  have ho := run_obs _ ops (init_inv started).1 (init_inv started).2 (init_obs started) hb
+  have hs := (tick_scheduled_when_runnable started ops hb).1 hst hc
+  exact tick_progress _ b hi.1 ho hs hc hb1
+
+
+/-- Task `T` *stays runnable and is not advanced* along `ops` from `s`: it is in `_tasks` at every
+    operation boundary, it receives no `next()` call, and at most `N` tasks exist. -/
+def Stays (T N : Nat) : State → List Op → Prop
+  | s, [] => T ∈ s.cur ∧ s.tasks.length ≤ N
+  | s, op :: ops => T ∈ s.cur ∧ s.tasks.length ≤ N ∧ advCount T (step s op).1 = advCount T s ∧
+      Stays T N (step s op).1 ops
+
+instance (T N : Nat) : (s : State) → (ops : List Op) → Decidable (Stays T N s ops)
+  | s, [] => inferInstanceAs (Decidable (T ∈ s.cur ∧ s.tasks.length ≤ N))
+  | s, op :: ops =>
+    have := instDecidableStays T N (step s op).1 ops
+    inferInstanceAs (Decidable (T ∈ s.cur ∧ s.tasks.length ≤ N ∧ advCount T (step s op).1 = advCount T s ∧
+      Stays T N (step s op).1 ops))
+
+theorem Stays.head {T N : Nat} {s : State} {ops : List Op} (h : Stays T N s ops) :
+    T ∈ s.cur ∧ s.tasks.length ≤ N := by
+  cases ops with
+  | nil => exact h
+  | cons op ops => exact ⟨h.1, h.2.1⟩
+
+/-- along such a stretch, work units given to other tasks are paid for by the rank of `T` -/
+theorem stays_bound (T N : Nat) (s : State) (ops : List Op) (h : Inv s) (hlog : LogOK s) (ho : ObsOK s)
+    (hb : Balanced s ops) (hst : Stays T N s ops) :
+    (run s ops).log.length + Fair.rank T N (absC N (run s ops)) ≤ s.log.length + Fair.rank T N (absC N s) := by
+  induction ops generalizing s with
+  | nil => exact Nat.le_refl _
+  | cons op ops ih =>
+    have hnext := step_inv s op h hlog hb.1
+    have hhead := hst.2.2.2.head
+    have hok : Fair.Ok T N (absC N s) := ⟨hst.1, Nat.le_trans h.cur_le hst.2.1⟩
+    obtain ⟨k, hk, hm⟩ := step_moves (T := T) (N := N) s op h ho hok hst.2.1 hhead.2 hhead.1 hst.2.2.1
+    have hr := (hm.ok hok).2
+    have := ih _ hnext.1 hnext.2 (step_obs s op h ho) hb.2 hst.2.2.2
+    show (run (step s op).1 ops).log.length + Fair.rank T N (absC N (run (step s op).1 ops)) ≤ _
+    omega
+
+/-
+FULL STATEMENT: for every balanced history over at most N tasks, a task that stays runnable (in
+`_tasks`) is advanced after at most `rank < N²` work units given to other tasks, and a tick is
+scheduled whenever `_tasks` is non-empty and the Cooperator is started
+(`tick_scheduled_when_runnable`).
 -/
-theorem no_starvation_partial (T N : Nat) (l : List Nat) (i : Nat) (ms : List Fair.Move)
+/-- **No runnable task is starved**: take any balanced history `pre ++ ops` of the model; if task `T`
+    is in `_tasks` (i.e. runnable, `in_tasks_iff_runnable`) at every operation boundary of the stretch
+    `ops` and no `next()` call of the stretch goes to `T`, then the stretch contains fewer than `N²`
+    `next()` calls in total, `N` bounding the number of tasks — whatever pauses, resumes, stops,
+    creations, Deferred firings, tick budgets and removals under iteration happen meanwhile.  So a task
+    that stays runnable is advanced within `N²` work units of the others, and ticks keep coming
+    (`tick_scheduled_when_runnable`).  Proof: every whole `step` is a legal sequence of the four moves
+    of `Fair` (`step_moves`), each work unit of another task strictly decreases `Fair.rank`. -/
+theorem no_starvation (started : Bool) (pre ops : List Op) (hb : Balanced (init started) (pre ++ ops))
+    (T N : Nat) (hst : Stays T N (run (init started) pre) ops) :
+    (run (init started) (pre ++ ops)).log.length < (run (init started) pre).log.length + N * N := by
+  have hb' := balanced_append _ pre ops hb
+  have hi := run_inv _ pre (init_inv started).1 (init_inv started).2 hb'.1
+  have ho := run_obs _ pre (init_inv started).1 (init_inv started).2 (init_obs started) hb'.1
+  have hbound := stays_bound T N _ ops hi.1 hi.2 ho hb'.2 hst
+  have hok : Fair.Ok T N (absC N (run (init started) pre)) :=
+    ⟨hst.head.1, Nat.le_trans hi.1.cur_le hst.head.2⟩
+  have := Fair.rank_lt' T N _ hok
+  rw [run_append]
+  omega
+
+/-- non-vacuity: four tasks; task 0 is exhausted and removed under iteration in the first tick, so the
+    index walk skips task 1 in the second tick (tasks 2 and 3 are served) — task 1 stays runnable and
+    un-advanced through the stretch `[tick 1, tick 2]`, 3 work units -/
+example :
+    Stays 1 4 (run (init true) [.new [], .new [.value], .new [.value, .value], .new [.value, .value]])
+      [.tick 1, .tick 2] ∧
+    (run (init true) [.new [], .new [.value], .new [.value, .value], .new [.value, .value], .tick 1, .tick 2]).log.map
+      (·.task) = [3, 2, 0] := by
+  decide
+
+/-- the list/iterator mechanism in isolation: for *every* sequence of the four moves that leaves `T`
+    in the list and never yields it, the number of work units of other tasks is below `N²` -/
+theorem no_starvation_moves (T N : Nat) (l : List Nat) (i : Nat) (ms : List Fair.Move)
     (hT : T ∈ l) (hlen : l.length ≤ N) (hi : i ≤ N) (hl : Fair.legalAll T N (l, i) ms) :
     Fair.yields ms < N * N := by
   have h1 := Fair.yields_le_rank T N (l, i) ms ⟨hT, hlen⟩ hl
